@@ -6,7 +6,7 @@ from .base import Verdict, sig_of, tagged, crash_check, cb_paths
 
 ID = "C06"
 LEVEL = "fault_enumeration"
-RUNS = (4000, 150000)
+RUNS = (3200, 150000)
 RULE = ("one seeded tree of C01 read through one of the four callback entry points; the veto is injected at every consulted file in "
         "turn (complete single-fault enumeration per tree) plus seeded subsets (only main, only a masked drop-in, only the last file, "
         "random subset); each execution is judged on its recorded event history; non-trivial = tree with >= 2 consulted files; "
@@ -86,7 +86,23 @@ def build_plans(world):
             # a caller's callback compares the path it is handed with the names it composed itself:
             # the veto is spelled the way the caller spelled its directories (relative stays relative)
             plans.append(one_plan(world, {"reject_spelled": [gen.rel(read, p) for p in vs]}, world["init"]))
+        sp = stale_path(world, model)
+        if sp:
+            # one more member in a consulted drop-in directory: a stale symbolic link with the suffix.  Whether the
+            # callback is asked about a path that cannot be opened is not claimed; IF it is asked and rejects, the
+            # rejection counts like any other
+            w2 = dict(world, nodes=world["nodes"] + [{"p": sp, "t": "l", "to": "$ROOT/nowhere/stale.conf"}])
+            plans.append(one_plan(w2, {"reject_spelled": [gen.rel(read, sp)]}, world["init"]))
     return plans
+
+
+def stale_path(world, model):
+    from ..models import norm_suffix
+    drop = [p for p in model["consulted"] if p != model.get("main")]
+    if not drop or world["read"]["ep"] == "readFile":
+        return None
+    d = drop[-1].rsplit("/", 1)[0]
+    return "%s/%s%s" % (d, ["00-stale", "zz-stale", "M-stale"][world.get("subset_seed", 0) % 3], norm_suffix(world["read"].get("suffix")))
 
 
 def empty_dump(d):
@@ -118,6 +134,18 @@ def check(world, plans, results):
     sigs = []
     for k, res in enumerate(results[1:], start=1):
         plan = plans[k]
+        if k - 2 >= len(sets):
+            # the stale-link plan: only the rule about rejections that happened
+            read_idx = [i for i, op in enumerate(plan["ops"]) if op.get("tag") == "read"][0]
+            evs = [e for e in res.get("events", []) if e[1] == read_idx]
+            rd = tagged(plan, res, "read")
+            if any(e[2] == "cb_reject" for e in evs):
+                v.probe("rejected_path_is_a_stale_link")
+                if rd["rc"] != 21:
+                    v.fail("veto:happened", "the callback rejected the stale link %r but the call returned %r instead of callback-failed" % ([norm(e[3]) for e in evs if e[2] == "cb_reject"][:1], rd["rc"]))
+                elif rd["out"] == "obj" and (read["ep"] == "readDirsHistory" or not empty_dump(tagged(plan, res, "dump"))):
+                    v.fail("veto:happened", "the callback rejected a stale link and the call still handed a result back")
+            continue
         vs = [] if k == 1 else sets[k - 2]
         rd = tagged(plan, res, "read")
         read_idx = [i for i, op in enumerate(plan["ops"]) if op.get("tag") == "read"][0]   # the vetoed read, not the one after it
@@ -139,6 +167,12 @@ def check(world, plans, results):
             elif what == "fopen_r" and r == 0:
                 if p not in accepted:
                     v.fail("cb:order", "plan %d: %s was opened without a preceding accepting callback (%s)" % (k, p, "rejected" if p in seen_cb else "never asked"))
+        # a rejection that HAPPENED yields nothing - whatever the rejected path was
+        if any(e[2] == "cb_reject" for e in evs):
+            if rd["rc"] != 21:
+                v.fail("veto:happened", "plan %d: the callback rejected %r but the call returned %r instead of callback-failed" % (k, [norm(e[3]) for e in evs if e[2] == "cb_reject"][:2], rd["rc"]))
+            elif rd["out"] == "obj" and (read["ep"] == "readDirsHistory" or not empty_dump(tagged(plan, res, "dump"))):
+                v.fail("veto:happened", "plan %d: the callback rejected a path and the call still handed a result back" % k)
         # exact path: a relative directory argument must reach the callback as a relative name
         if read.get("rel"):
             for pth, a, ok in cb_paths(res, read_idx):
